@@ -205,6 +205,8 @@ def run_pool(ctx):
             else:
                 ctx.log(f"note: trace rejection attributed to {sorted(attr)} not {pid}")
         ctx.cov["trace_events"] = ctx.cov.get("trace_events", 0) + events
+    if pid == "C21" and not ctx.violations and not os.environ.get("VERIF_DEV_SKIP_MC"):
+        agg_system(ctx)
     ctx.cov["distinct_nontrivial"] = len(distinct)
     ctx.cov["rule"] = ("behaviours: TLC -simulate over MC_PoolSim (12-entry palette, 3-5 limit settings) replayed call by "
                        "call with full state comparison; histories: seeded random real-pool runs (6-12 keys, 16 "
@@ -212,6 +214,50 @@ def run_pool(ctx):
                        "an admission and a late rejection or eviction; distinct = distinct call/result sequences")
     ctx.cov["exhaustive"] = False
     return core.finish(ctx)
+
+
+def agg_system(ctx):
+    """Beyond the listed properties: the aggregation loop around the pool (AggSystem.tla: snapshots handed to proving
+    workers that may crash, batches landing on a chain that settles each nullifier once, the miner syncing settled sets).
+    Safety by TLC (custody, every proved batch was a snapshot, no double settlement, clean pool after a sync, all of Pool's
+    invariants), liveness under strong fairness (every pooled proof is eventually resolved; the no-sync mutant must violate),
+    and the pool calls of simulated system behaviours replayed on the real ProofPool."""
+    res = core.run_tlc(ctx, "AggSystem", "AggSystem_quick.cfg" if ctx.quick else "AggSystem.cfg", workers=6, timeout=3000, coverage=False)
+    if res["violated"]:
+        ctx.violation(f"TLC: {res['violated']} violated in AggSystem (the aggregation loop around the pool)",
+                      {"engine": "tlc", "tlc": core.tlc_counterexample(res["out"])})
+        return
+    if not ctx.quick:
+        live = core.run_tlc(ctx, "AggSystem", "AggSystem_live.cfg", workers=4, timeout=1800, coverage=False)
+        if live["violated"]:
+            ctx.violation("TLC: a pooled proof is not eventually resolved in AggSystem under fair proving and syncing",
+                          {"engine": "tlc", "tlc": core.tlc_counterexample(live["out"])})
+            return
+        mut = core.run_tlc(ctx, "AggSystem", "AggSystem_live_mut.cfg", workers=4, timeout=1800, coverage=False, expect_violation=True, quiet=True)
+        if not mut["violated"]:
+            raise core.ToolError("vacuity: AggSystem's liveness holds even when the miner never syncs")
+    r = core.run_tlc(ctx, "AggSystem", "AggSystem_sim.cfg", workers=1, simulate=25 if ctx.quick else 600, depth=38, coverage=False, timeout=1800)
+    if r["violated"]:
+        ctx.violation(f"TLC simulation: {r['violated']} violated in AggSystem", {"engine": "tlc", "tlc": core.tlc_counterexample(r["out"])})
+        return
+    lines = sorted(set(r["prints"].get("REPLAY", [])))
+    if not lines:
+        raise core.ToolError("AggSystem simulation emitted no behaviour")
+    inp = ctx.workdir / "aggsys_in.ndjson"
+    inp.write_text("\n".join(lines) + "\n")
+    out = ctx.workdir / "aggsys_out.ndjson"
+    core.vh(ctx, ["pool-replay", inp, out])
+    nok = 0
+    for rr, ln in zip(core.jsonl_read(out), lines):
+        ctx.cov["evaluations"] += 1
+        if rr["ok"]:
+            nok += 1
+            ctx.cov["traces_validated_against_impl"] += 1
+        else:
+            mm = rr["mismatch"]
+            ctx.violation(f"real pool disagrees with AggSystem.tla (aggregation loop) at step {mm['step']} ({mm['call']}): {mm['why']}",
+                          {"engine": "pool-replay", "behaviour": json.loads(ln), "mismatch": mm})
+    ctx.cov["aggregation_loop_behaviours_replayed"] = nok
 
 
 @register("C19", "C20", "C21", "C22")
